@@ -157,6 +157,14 @@ class Builder:
             lambda: R.MV(d(st.sampled_from(self.cfg.ids)), (k,), (), (), ()),
             lambda: R.MV(d(st.sampled_from(self.cfg.ids)), (), (k,), (j,), ()),
             lambda: R.EX(k, R.MV(0, (j,), (), (), ())),
+            # a binder that rebinds the id and uses it in its body (substitution on that id must leave it alone)
+            lambda: R.EX(k, R.E(k)),
+            lambda: R.I(R.EX(k, R.A(f, R.E(k))), f),
+            lambda: R.MU(k, R.S(k)),
+            lambda: R.I(R.EX(k, R.E(k)), R.E(k)),
+            lambda: R.NOT(R.EX(k, R.E(k))),
+            lambda: R.NOT(R.EX(k, R.A(f, R.E(k)))),
+            lambda: R.I(R.EX(k, R.E(k)), f),
         ]
         p = d(st.sampled_from(templates))()
         return p if R.well_formed(p) else self.pattern(2)
@@ -265,6 +273,26 @@ class Builder:
         frag = bytes([28, 27]) + M.emit(first) + bytes([29, idx, 26, 1, i]) + bytes([28, 27]) + M.emit(plug) + bytes([29, idx + 1, 26, 1, first[1]])
         self.emit(frag, 'attack-launder', allow_reject=True)
 
+    def g_attack_capture(self):
+        """Substitution under a binder introduced by Generalization: |- M -> M with M = phi_i{e_fresh x, s_fresh X}[X/y]
+        (X occurs in the plug of the pending substitution), Generalization on x (legal), then Substitution X := x-pattern, which
+        the documented machine refuses (x would be captured), then - blind - the metavariable is instantiated so that the
+        pending substitution resolves."""
+        if len(self.m.memory) >= 248: return
+        d = self.draw
+        ids = self.cfg.ids
+        x = d(st.sampled_from(ids)); X = d(st.sampled_from(ids)); i = d(st.sampled_from(ids))
+        y = d(st.sampled_from([v for v in ids if v != x] or list(ids)))
+        Mv = R.ES(R.MV(i, (x,), (X,), (), ()), y, d(st.sampled_from([R.S(X), R.A(R.Y(0), R.S(X))])))
+        if not R.well_formed(Mv): return
+        if not self.emit(refl_stream(Mv) + bytes([22, x]), 'capture-setup', allow_reject=False): return
+        plug = d(st.sampled_from([R.E(x), R.A(R.Y(0), R.E(x))]))
+        val = d(st.sampled_from([R.E(y), R.A(R.Y(1), R.E(y)), R.I(R.E(y), R.Y(0))]))
+        idx = len(self.m.memory)
+        # Substitution: plug below the theorem; then Instantiate phi_i := val
+        frag = bytes([28, 27]) + M.emit(plug) + bytes([29, idx, 24, X]) + bytes([28, 27]) + M.emit(val) + bytes([29, idx + 1, 26, 1, i])
+        self.emit(frag, 'attack-capture', allow_reject=True)
+
     def g_weaken(self):
         t = self.top()
         if not t or t[0] != 'T' or len(self.m.memory) >= 250: return
@@ -363,11 +391,13 @@ class Builder:
             k = self.draw(st.sampled_from(self.cfg.ids))
             mv = self.draw(st.sampled_from([R.MV(1, (), (0,), (), ()), R.MV(1, (0,), (), (), ()), R.MV(2, (), (k,), (k,), ()), R.MV(1, (k,), (0,), (), ())]))
             p = self.draw(st.sampled_from([mv, R.NOT(R.I(mv, R.E(0))), R.A(mv, R.E(0)), R.EX(1, R.I(mv, R.E(0)))]))
+        elif self.draw(st.integers(0, 3)) == 0:
+            p = self.collision_pattern()      # id collisions: binders that rebind x0 / x1, mu over the same numbers, ...
         self.emit(inst_stream([15], [(0, p)]), 'Quantifier-inst')
 
     GADGETS = ['g_push_pattern', 'g_axiom', 'g_refl', 'g_refl', 'g_weaken', 'g_generalize', 'g_generalize',
                'g_substitution', 'g_substitution', 'g_instantiate', 'g_instantiate', 'g_mp', 'g_mp_ready', 'g_mem', 'g_quantifier_inst',
-               'g_attack_generalize', 'g_attack_generalize', 'g_attack_instantiate', 'g_attack_mu', 'g_attack_launder']
+               'g_attack_generalize', 'g_attack_generalize', 'g_attack_instantiate', 'g_attack_mu', 'g_attack_launder', 'g_attack_capture']
 
     def step(self):
         getattr(self, self.draw(st.sampled_from(self.GADGETS)))()
